@@ -420,6 +420,10 @@ extern "C" {
 // install (1) / remove (0) the simulated pool
 __attribute__ ((visibility ("default"))) void detsim_install (int on)
 {
+    // Persistent workers, created outside any dispatch: like the threads of a real pool they carry the process's
+    // default per-thread state (floating-point control word, thread-locals), not whatever the dispatching thread
+    // happens to have set while it is inside dispatchTask.
+    if (on) ensureThreads (MAXW);
     PyImath::WorkerPool::setCurrentPool (on ? &g_pool : nullptr);
 }
 
